@@ -42,6 +42,7 @@ def is_grove_dune(text: str) -> bool:
     return text != "a"
 
 
+@abstract
 @serialization(with_model_type=True)
 class Raven(DBC):
     """Represent a thing."""
